@@ -47,9 +47,12 @@ namespace xp = xenium::policy;
 const Cfg cfgs[] = {
   {"deque/growing/cap2", 0, mk<DQ<xenium::chase_work_stealing_deque<int, xp::capacity<2>>>>},
   {"deque/growing/cap4", 0, mk<DQ<xenium::chase_work_stealing_deque<int, xp::capacity<4>>>>},
+  // a growing container whose maximum capacity is reached (then it behaves like a full fixed container)
+  {"deque/growing2max4", 4, mk<DQ<xenium::chase_work_stealing_deque<int, xp::container<xenium::detail::growing_circular_array<int, 2, 4>>>>>},
+  {"deque/growing2max8", 8, mk<DQ<xenium::chase_work_stealing_deque<int, xp::container<xenium::detail::growing_circular_array<int, 2, 8>>>>>},
   {"deque/fixed4", 4, mk<DQ<xenium::chase_work_stealing_deque<int, xp::container<xenium::detail::fixed_size_circular_array<int, 4>>>>>},
 };
-constexpr int NCFG = 3;
+constexpr int NCFG = 5;
 
 struct DModel {
   using State = std::deque<int>;
